@@ -94,17 +94,33 @@ Definition run_explicit (args : list bytes) : bytes :=
 (* "C05 opened in=.. bout=<B;B;..> tamper=<T> [vec=..]"  — a transaction that was NOT blinded by the model (a real-network
    vector): the case gives an opened form — for the repository's vectors a FABRICATED one, the true openings being unknown:
    any assignment of assets, amounts and blinding factors that balances gives the same ideal verdicts —
-   B = <asset hex32>:<amount dec>:<abf hex32>:<vbf hex32>:<script hex|->:<c|e>   (c = confidential asset and value, e = explicit) *)
-Definition parse_bout (s : bytes) : option (secrets * bytes * bool) :=
+   B = <asset hex32>:<amount dec>:<abf hex32>:<vbf hex32>:<script hex|->:<c|e|v|a>
+       c = confidential asset and value, e = explicit, v = EXPLICIT asset + CONFIDENTIAL value (commitment on the unblinded generator,
+       range proof, no surjection proof), a = CONFIDENTIAL asset + EXPLICIT amount (surjection proof, no range proof).
+   Without `vec=` the transaction was built by the harness from exactly this opened form with the real library (mixed outputs). *)
+Definition parse_bout (s : bytes) : option (secrets * bytes * bytes) :=
   match colons s with
   | [a; v; abf; vbf; sc; k] =>
       match nhex a, zdec v, zhex abf, zhex vbf, hexarg sc with
-      | Some a, Some v, Some abf, Some vbf, Some sc => Some (mkSec a abf v vbf, sc, bytes_eqb k "c"%lb)
+      | Some a, Some v, Some abf, Some vbf, Some sc => Some (mkSec a abf v vbf, sc, k)
       | _, _, _, _, _ => None end
   | _ => None end.
-Definition build_bout (ss : list secrets) (e : secrets * bytes * bool) : option txout :=
-  let '(s, sc, conf) := e in
-  if conf then match with_txout_secrets i_pubk i_ecdh sc 1 1 s (map sinput_of_secrets ss) with OVal o => Some o | _ => None end
+Definition build_bout (ss : list secrets) (e : secrets * bytes * bytes) : option txout :=
+  let '(s, sc, k) := e in
+  if bytes_eqb k "c"%lb then
+    match with_txout_secrets i_pubk i_ecdh sc 1 1 s (map sinput_of_secrets ss) with OVal o => Some o | _ => None end
+  else if bytes_eqb k "v"%lb then
+    (* Value::new_confidential(value, Generator::new_unblinded(tag), vbf) + RangeProof::new(.., that generator) *)
+    let gen := gH (s_asset s) in
+    let c := commit (s_value s) gen (s_vbf s) in
+    match rp_new c (s_value s) (s_vbf s) (s_asset s, 0) sc 1 gen with
+    | Some rp => Some (mkOut (AExp (s_asset s)) (VConf c) NNull sc (Some rp) None)
+    | None => None end
+  else if bytes_eqb k "a"%lb then
+    (* Asset::blind(abf, spent secrets) ; the amount stays explicit *)
+    match asset_blind (AExp (s_asset s)) (s_abf s) (map sinput_of_secrets ss) with
+    | OVal (a', sp) => Some (mkOut a' (VExp (s_value s)) NNull sc None (Some sp))
+    | _ => None end
   else Some (mkOut (AExp (s_asset s)) (VExp (s_value s)) NNull sc None None).
 Definition run_opened (args : list bytes) : bytes :=
   match field "in"%lb args, field "bout"%lb args, field "tamper"%lb args with
